@@ -83,7 +83,8 @@ def cases(draw, tier="quick", kind=None):
             form = draw(st.sampled_from(["str", "str", "prefix-dict", "dict-no-prefix", "dict-prefix-false", "number", "null", "list", "type-coercion"]))
             terms.append([p, u, form])
         for kw in draw(st.lists(st.sampled_from(["@vocab", "@base", "@language", "@version", ""]), unique=True, max_size=3)):
-            terms.append([kw, "http://kw/" if kw != "@version" else "1.1", "str"])
+            # ignored keys come with plain strings and, just as often, with a value that would be taken under an ordinary key
+            terms.append([kw, "http://kw/" if kw != "@version" else "1.1", draw(st.sampled_from(["str", "prefix-dict"])) if kw != "@version" else "str"])
         case["data"] = terms
         case["extra_top"] = draw(st.booleans())
     elif kind == "rdflib":
@@ -99,6 +100,7 @@ def cases(draw, tier="quick", kind=None):
         ps = draw(_strs(S.CURIE_ALPHA, 0, 7))
         upool = draw(S.uri_pool(1, 4))
         case["data"] = [[p, draw(st.sampled_from(upool))] for p in ps]
+    case["delimiter"] = draw(S.delimiters())
     n = len(case["data"])
     case["perm"] = list(draw(st.permutations(range(n)))) if n > 1 else list(range(n))
     return case
@@ -148,13 +150,15 @@ def _via_files(obj, loader, what):
 
 
 def _behaviour(conv: Converter, expected, what):
-    model = Model(expected)
+    d = conv.delimiter  # loaders forward keyword arguments such as delimiter= to the constructor
+    model = Model(expected, d)
     for r in expected:
         for p in prefixes_of(r):
-            if ":" in p:
-                continue
-            if conv.expand(p + ":1") != r["uri_prefix"] + "1":
-                raise Violation(f"{what}: expand({p + ':1'!r}) = {conv.expand(p + ':1')!r}, the input denotes {r['uri_prefix'] + '1'!r}")
+            if (p + d).find(d) != len(p):
+                continue  # the prefix contains the delimiter or overlaps with it: no CURIE can address it (C02's domain)
+            for ident in ("1", "a" + d + "b"):
+                if conv.expand(p + d + ident) != r["uri_prefix"] + ident:
+                    raise Violation(f"{what}: expand({p + d + ident!r}) = {conv.expand(p + d + ident)!r}, the input denotes {r['uri_prefix'] + ident!r}")
             if conv.standardize_prefix(p) != r["prefix"]:
                 raise Violation(f"{what}: {p!r} standardises to {conv.standardize_prefix(p)!r}, expected canonical {r['prefix']!r}")
     for u in S.boundary_uri_probes(expected, idents=("1",)):
@@ -177,6 +181,8 @@ def check(case, stats: Stats) -> None:
         convs = {"object": build(data), "shuffled": build(shuffled), "load_prefix_map": curies.load_prefix_map({p: u for p, u in data})}
         s, pth = _via_files({p: u for p, u in data}, Converter.from_prefix_map, kind)
         convs.update({"str-path": s, "Path": pth})
+        dl = case.get("delimiter", ":")
+        convs[f"delimiter={dl!r}"] = Converter.from_prefix_map({p: u for p, u in data}, delimiter=dl)
         free = False
     elif kind == "priority":
         expected = [_rec(p, us[0], us=list(dict.fromkeys(us[1:]))) for p, us in data]
@@ -184,6 +190,8 @@ def check(case, stats: Stats) -> None:
         convs = {"object": build(data), "shuffled": build(shuffled)}
         s, pth = _via_files({p: list(us) for p, us in data}, Converter.from_priority_prefix_map, kind)
         convs.update({"str-path": s, "Path": pth})
+        dl = case.get("delimiter", ":")
+        convs[f"delimiter={dl!r}"] = Converter.from_priority_prefix_map({p: list(us) for p, us in data}, delimiter=dl)
         free = False
         if any(len(us) > 1 for _, us in data):
             klass = "several-uri-prefixes-for-one-prefix"
@@ -224,6 +232,8 @@ def check(case, stats: Stats) -> None:
         convs["mixed-map-object"] = Converter.from_extended_prefix_map(map(lambda t: t[1] if t[0] % 2 else mk_records([data[t[0]]])[0], enumerate(as_dicts(data))))
         s, pth = _via_files(as_dicts(data), Converter.from_extended_prefix_map, kind)
         convs.update({"str-path": s, "Path": pth})
+        dl = case.get("delimiter", ":")
+        convs[f"delimiter={dl!r}"] = Converter.from_extended_prefix_map(as_dicts(data), delimiter=dl)
         free = False
         if any(r["prefix_synonyms"] for r in data) and any(r["uri_prefix_synonyms"] for r in data):
             klass = "synonyms-on-both-sides"
